@@ -435,3 +435,34 @@ func PinFamily(emit func(p *ref.Pos)) {
 
 // Describe is used in evidence samples.
 func Describe(p *ref.Pos) string { return fmt.Sprint(p.FEN(0, 1)) }
+
+// BackRankFamily enumerates a castled king boxed in by its own pawns and checked along the back
+// rank by an enemy rook on every free square of that rank, with one own piece (Q, R, B, N) on
+// every square: positions in which the only legal replies are interpositions or captures, many
+// of them with exactly one legal move. Both colours.
+func BackRankFamily(emit func(p *ref.Pos)) {
+	for _, white := range []bool{true, false} {
+		sign, back, second, far := int8(1), 0, 1, 7
+		if !white {
+			sign, back, second, far = -1, 7, 6, 0
+		}
+		for rf := 0; rf < 6; rf++ { // checking rook on a..f of the back rank
+			for _, x := range []int8{ref.Q, ref.R, ref.B, ref.N} {
+				for xs := 0; xs < 64; xs++ {
+					p := &ref.Pos{EP: -1, White: white}
+					p.Sq[sqi(6, back)] = sign * ref.K
+					p.Sq[sqi(5, second)], p.Sq[sqi(6, second)], p.Sq[sqi(7, second)] = sign*ref.P, sign*ref.P, sign*ref.P
+					p.Sq[sqi(rf, back)] = -sign * ref.R
+					p.Sq[sqi(7, far)] = -sign * ref.K
+					if p.Sq[xs] != 0 {
+						continue
+					}
+					p.Sq[xs] = sign * x
+					if Valid(p) {
+						emit(p)
+					}
+				}
+			}
+		}
+	}
+}
